@@ -302,8 +302,18 @@ func (fc *FnCtx) wf(st *State, v Term, t types.Type) Term {
 	}
 	switch u := t.Underlying().(type) {
 	case *types.Basic:
-		if u.Info()&types.IsUnsigned != 0 && !fc.TE.BV {
-			return app(SBool, ">=", v, IntLit(0))
+		if u.Info()&types.IsInteger != 0 && !fc.TE.BV {
+			// the machine range of the type (values always lie in it; only arithmetic may leave it)
+			lo, hi := intRange(u)
+			if !fc.top.wideRanges() {
+				// by default only the sign of unsigned values is stated: the 64-bit bounds
+				// slow the solvers down markedly; contracts that need them say "opt ranges true"
+				if u.Info()&types.IsUnsigned != 0 {
+					return app(SBool, ">=", v, IntLit(0))
+				}
+				return TTrue
+			}
+			return And(app(SBool, "<=", IntLitStr(lo), v), app(SBool, "<=", v, IntLitStr(hi)))
 		}
 	case *types.Pointer, *types.Map:
 		return And(app(SBool, ">=", v, IntLit(0)), app(SBool, "<", v, fc.heapGet(st, nextVar)))
@@ -328,6 +338,30 @@ func (fc *FnCtx) wf(st *State, v Term, t types.Type) Term {
 		_ = u
 	}
 	return TTrue
+}
+
+func (fc *FnCtx) wideRanges() bool {
+	return fc != nil && fc.C != nil && fc.C.Opts["ranges"] != ""
+}
+
+func intRange(b *types.Basic) (string, string) {
+	switch b.Kind() {
+	case types.Int8:
+		return "-128", "127"
+	case types.Int16:
+		return "-32768", "32767"
+	case types.Int32:
+		return "-2147483648", "2147483647"
+	case types.Uint8:
+		return "0", "255"
+	case types.Uint16:
+		return "0", "65535"
+	case types.Uint32:
+		return "0", "4294967295"
+	case types.Uint, types.Uint64, types.Uintptr:
+		return "0", "18446744073709551615"
+	}
+	return "-9223372036854775808", "9223372036854775807"
 }
 
 func (fc *FnCtx) assumeWF(st *State, v Term, t types.Type, note string) {
@@ -911,7 +945,7 @@ func (fc *FnCtx) constVal(c *ssa.Const) Val {
 			return tv(IntLitStr(s))
 		case u.Info()&types.IsFloat != 0:
 			f, _ := constant.Float64Val(c.Value)
-			return tv(floatLit(f))
+			return tv(fc.TE.FLit(f))
 		case u.Info()&types.IsString != 0:
 			return tv(fc.TE.G.StrLit(constant.StringVal(c.Value)))
 		}
